@@ -112,3 +112,10 @@ Proof. exact @multi_file_cli_digits. Qed.
 Example C16_overlapping_ranges_break := overlapping_ranges_break.
 Example C16_too_few_digits_break := too_few_digits_break.
 Example C16_fill_example := fill_example.
+
+(* `bb fps-shuffle`: whatever permutation of the row indices the generator draws, the output holds
+   the same rows with the same multiplicities *)
+From BB Require Import Proofs.FpsShuffle.
+Theorem C16_shuffle_multiset : forall R (perm : list nat) (rows : list R) d,
+  Permutation perm (seq 0 (List.length rows)) -> Permutation (apply_perm perm rows d) rows.
+Proof. exact @shuffle_multiset. Qed.
